@@ -223,7 +223,70 @@ class _Worker:
 
 
 class _Task:
-    __slots__ = ("no", "payload", "callback", "error_callback", "result", "worker", "start", "finish", "tie", "executed", "reported", "outcome")
+    __slots__ = ("no", "payload", "callback", "error_callback", "result", "worker", "start", "finish", "tie", "executed", "reported", "outcome", "items", "group")
+
+
+def _mapstar(args):
+    """what multiprocessing.pool.mapstar does with one chunk: the calls of a chunk run back to back in one worker, and
+    the first exception ends the chunk"""
+    func, chunk = args
+    return list(map(func, chunk))
+
+
+def _starmapstar(args):
+    import itertools
+
+    func, chunk = args
+    return list(itertools.starmap(func, chunk))
+
+
+class SimMapResult:
+    """The MapResult protocol: ready when every chunk is, value = the chunks' lists joined, first error wins and the
+    error callback is called once."""
+
+    def __init__(self, pool, tasks, callback, error_callback):
+        self._pool, self._tasks = pool, tasks
+        self._callback, self._error_callback = callback, error_callback
+        self._ready = False
+        self._ok = None
+        self._value = None
+        self._failed = False
+        if not tasks:
+            self._ready, self._ok, self._value = True, True, []
+
+    def ready(self):
+        return self._ready
+
+    def successful(self):
+        if not self._ready:
+            raise ValueError("result is not ready")
+        return self._ok
+
+    def wait(self, timeout=None):
+        if not self._ready and self._tasks:
+            self._pool._advance_to_task(max(self._tasks, key=lambda t: (t.finish, t.no)))
+
+    def get(self, timeout=None):
+        self.wait(timeout)
+        if not self._ready:
+            raise SimPoolError("task was dropped by terminate() before it finished")
+        if self._ok:
+            return self._value
+        raise self._value
+
+    def _chunk_done(self, t):
+        ok, value = t.outcome
+        if not ok and not self._failed:
+            self._failed = True
+            self._ok, self._value = False, value
+            if self._error_callback is not None:
+                self._error_callback(value)
+        if all(x.reported for x in self._tasks):
+            if not self._failed:
+                self._ok, self._value = True, [v for x in self._tasks for v in x.outcome[1]]
+                if self._callback is not None:
+                    self._callback(self._value)
+            self._ready = True
 
 
 class SimResult:
@@ -274,6 +337,7 @@ class SimPool:
         self._state = "RUN"
         self._now = 0
         self._tasks = []
+        self._n_items = 0
         self._last_start = 0
         self._workers = []
         self.worker_pids = []
@@ -362,13 +426,22 @@ class SimPool:
     def apply_async(self, func, args=(), kwds=None, callback=None, error_callback=None):
         if self._state != "RUN":
             raise ValueError("Pool not running")
+        payload = pickle.dumps((func, tuple(args), dict(kwds or {})), protocol=pickle.HIGHEST_PROTOCOL)
+        t = self._submit(payload, 1, callback, error_callback)
+        t.result = SimResult(self, t)
+        return t.result
+
+    def _submit(self, payload, n_items, callback=None, error_callback=None):
+        """One scheduling decision: who takes this task (one call, or one chunk of a map), and when."""
         t = _Task()
         t.no = len(self._tasks)
-        t.payload = pickle.dumps((func, tuple(args), dict(kwds or {})), protocol=pickle.HIGHEST_PROTOCOL)
+        t.payload = payload
         t.callback, t.error_callback = callback, error_callback
         t.executed = t.reported = False
         t.outcome = None
-        # ---- one scheduling decision: who takes this task, and when
+        t.group = None
+        t.items = list(range(self._n_items, self._n_items + n_items))  # calls in submission order, over the whole pool
+        self._n_items += n_items
         avail = max(self._now, self._last_start)  # FIFO: not before its predecessor was taken
         idle = [w for w in self._workers if w.free_at <= avail]
         if idle:
@@ -379,23 +452,59 @@ class SimPool:
             cands = [w for w in self._workers if w.free_at == first]
             w = cands[self._rng.randrange(len(cands))] if len(cands) > 1 else cands[0]
             t.start = first
-        t.finish = t.start + self._durations[t.no % len(self._durations)]
+        t.finish = t.start + sum(self._durations[i % len(self._durations)] for i in t.items)
         t.tie = self._rng.random()
         t.worker = w
         w.free_at = t.finish
         self._last_start = t.start
-        t.result = SimResult(self, t)
+        t.result = None
         self._tasks.append(t)
-        self.log.append(["assign", t.no, w.index, t.start, t.finish, len(idle)])
-        return t.result
+        self.log.append(["assign", t.no, w.index, t.start, t.finish, len(idle), list(t.items)])
+        return t
+
+    def _map_async(self, func, iterable, star, chunksize=None, callback=None, error_callback=None):
+        """Pool._map_async: the iterable is cut into chunks of ceil(n / (4 x processes)) calls; each chunk is pickled as
+        ONE object (arguments shared between calls of a chunk stay shared after unpickling) and run by one worker."""
+        if self._state != "RUN":
+            raise ValueError("Pool not running")
+        items = list(iterable)
+        if chunksize is None:
+            chunksize, extra = divmod(len(items), len(self._workers) * 4)
+            if extra:
+                chunksize += 1
+        if len(items) == 0:
+            chunksize = 0
+        tasks = []
+        runner = _starmapstar if star else _mapstar
+        for i in range(0, len(items), max(1, chunksize)):
+            chunk = tuple(items[i:i + max(1, chunksize)])
+            payload = pickle.dumps((runner, ((func, chunk),), {}), protocol=pickle.HIGHEST_PROTOCOL)
+            tasks.append(self._submit(payload, len(chunk)))
+        res = SimMapResult(self, tasks, callback, error_callback)
+        for t in tasks:
+            t.group = res
+        self.log.append(["map", "starmap" if star else "map", len(items), chunksize, [t.no for t in tasks]])
+        return res
+
+    def map_async(self, func, iterable, chunksize=None, callback=None, error_callback=None):
+        return self._map_async(func, iterable, False, chunksize, callback, error_callback)
+
+    def starmap_async(self, func, iterable, chunksize=None, callback=None, error_callback=None):
+        return self._map_async(func, iterable, True, chunksize, callback, error_callback)
+
+    def map(self, func, iterable, chunksize=None):
+        return self._map_async(func, iterable, False, chunksize).get()
+
+    def starmap(self, func, iterable, chunksize=None):
+        return self._map_async(func, iterable, True, chunksize).get()
 
     def apply(self, func, args=(), kwds=None):
         return self.apply_async(func, args, kwds).get()
 
-    def map(self, *a, **k):
-        raise SimPoolError("SimPool models apply_async only")
+    def imap(self, *a, **k):
+        raise SimPoolError("SimPool models apply_async / map / starmap (and their _async forms) only")
 
-    map_async = imap = imap_unordered = starmap = starmap_async = map
+    imap_unordered = imap
 
     def close(self):
         if self._state == "RUN":
@@ -450,15 +559,19 @@ class SimPool:
             raise SimPoolError("protocol error: reply for another task")
         t.outcome = pickle.loads(raw)
         t.executed = True
-        w.ran.append(t.no)
-        self.log.append(["exec", t.no, w.index, len(w.ran)])
+        first = len(w.ran)
+        w.ran.extend(t.items)
+        self.log.append(["exec", t.no, w.index, len(w.ran), first, list(t.items)])
 
     def _report(self, t):
         ok, value = t.outcome
-        r = t.result
-        r._ok, r._value, r._ready = ok, value, True
         t.reported = True
         self.log.append(["complete", t.no, bool(ok), None if ok else type(value).__name__])
+        if t.group is not None:
+            t.group._chunk_done(t)
+            return
+        r = t.result
+        r._ok, r._value, r._ready = ok, value, True
         if ok and t.callback is not None:
             t.callback(value)
         if not ok and t.error_callback is not None:
@@ -526,9 +639,20 @@ class Seam:
         return False
 
     def executed(self):
-        """task number -> (worker index, k-th task of that worker), over all pools (backtest.py creates one)."""
+        """call number (submission order) -> (worker index, k-th call run by that worker), over all pools (backtest.py
+        creates one); a call is one apply_async or one element of a map / starmap"""
         out = {}
         for e in self.log:
             if e[0] == "exec":
-                out[e[1]] = (e[2], e[3] - 1)
+                for k, item in enumerate(e[5]):
+                    out[item] = (e[2], e[4] + k)
+        return out
+
+    def task_of(self):
+        """call number -> task number (its own, or the chunk it travelled in)"""
+        out = {}
+        for e in self.log:
+            if e[0] == "assign":
+                for item in e[6]:
+                    out[item] = e[1]
         return out
